@@ -15,6 +15,7 @@ import (
 	"pgregory.net/rapid"
 
 	"verifharness/drive"
+	"verifharness/gen"
 	"verifharness/spec"
 )
 
@@ -24,11 +25,19 @@ type cancelCase struct {
 	Plan    *spec.MergePlan `json:"plan"`
 	BufSize int             `json:"bufSize"`
 	Spins   []uint16        `json:"spins"` // asynchronous closers: spin counts before closing
+	// DVChunk: doc-value chunk size for the whole case (0 = default 1024); small values make the
+	// doc-value phase of a merge write chunk by chunk, so closure points fall inside it
+	DVChunk uint32 `json:"dvChunk,omitempty"`
 }
 
 func genCancelCase(t *rapid.T) cancelCase {
 	pc := genPlanCase(t, planGenOpts{synonyms: 1, vectors: vectorsMaybe, forceDV: true, wide: true, widePct: 6, chunkModes: true})
+	var dvChunk uint32
+	if gen.Chance(t, "smallDVChunk", 40) {
+		dvChunk = rapid.SampledFrom([]uint32{1, 2, 3}).Draw(t, "dvChunk")
+	}
 	return cancelCase{
+		DVChunk: dvChunk,
 		Plan:    pc.Plan,
 		BufSize: rapid.SampledFrom([]int{64, 1, 7, 4096, 1 << 20}).Draw(t, "bufSize"),
 		Spins:   rapid.SliceOfN(rapid.Uint16(), 2, 6).Draw(t, "spins"),
@@ -60,6 +69,11 @@ func runCancelCase(c cancelCase) *Violation {
 	oldBuf := zap.DefaultFileMergerBufferSize
 	zap.DefaultFileMergerBufferSize = c.BufSize
 	defer func() { zap.DefaultFileMergerBufferSize = oldBuf }()
+	if c.DVChunk != 0 {
+		oldDV := zap.LegacyChunkMode
+		zap.LegacyChunkMode = c.DVChunk
+		defer func() { zap.LegacyChunkMode = oldDV }()
+	}
 
 	root := c.Plan
 	var res []*drive.PlanResult
@@ -342,6 +356,9 @@ var c18 = Check[cancelCase]{
 	Classify: func(c cancelCase) (bool, []string) {
 		r := spec.Resolve(c.Plan)
 		cl := []string{fmt.Sprintf("buf=%d", c.BufSize)}
+		if c.DVChunk != 0 {
+			cl = append(cl, "doc-value-chunks-of-1..3-docs")
+		}
 		o := spec.ExpectResolved(r)
 		if len(o.Thes) > 0 {
 			cl = append(cl, "thesaurus-phase")
